@@ -70,6 +70,10 @@ def random_name(rng, used):
         if rng.random() < 0.2:
             n = ''.join(chr(rng.choice([rng.randint(33, 126), 0xe9, 0x4e2d]))
                         for _ in range(rng.randint(1, 8)))
+        if rng.random() < 0.08:
+            # a name made of digits: the same characters also occur as
+            # numbers in the captured script
+            n = rng.choice(['0', '1', '2', '3', '12', '100', '65535', '2700'])
         if used and rng.random() < 0.12:
             # differs from a name already taken only in case, in a blank at
             # either end or in the form of one letter: another light
